@@ -220,6 +220,12 @@ def name_path_dup(ex):
         if not getattr(e, "flattenable", False):
             continue
         key = tuple(path_names(e))
+        # an element stored in a mapping under a key that is not its name (an instance of a RENAMED subclass assigned to
+        # a SparseDict key: the state of the open finding KF-C10-a / KF-C13-c) can share its name with a sibling; the
+        # uniqueness clause is about schemas, where a mapping's keys ARE its members' names — such elements are skipped
+        chain = [e] + ex.parents(e)
+        if any(isinstance(p, dict) and dict.get(p, c.name) is not c for c, p in zip(chain, chain[1:])):
+            continue
         # the outermost Array/MultiValue above the element owns the shared paths (its members repeat one name path)
         owner = id(e)
         for p in ex.parents(e):
